@@ -103,4 +103,25 @@ theorem sources_with_prelude_declared {L : Nat} {srcs : List (Bool × Bytes)} {s
   | error e => rw [h1] at h; cases h
   | outOfFuel => rw [h1] at h; cases h
 
+/-- the prelude followed by one user source: `ParseSchemas` and the loader model both succeed -/
+def loadsWithPrelude (user : Bytes) : Bool :=
+  match parseSchemas 0 [(true, Gen.preludeBytes), (false, user)] with
+  | .ok sd => (match load sd with | .ok _ => true | _ => false)
+  | _ => false
+
+/-- kernel evaluation of lexer, parser and LOADER models on the prelude and `type Query { a: Int }` -/
+theorem prelude_and_user_source_load : loadsWithPrelude (str "type Query { a: Int }") = true := by decide +kernel
+
+/-- non-vacuity of the `…_loadSchema` theorems: their hypotheses about the schema sources are satisfiable -/
+theorem loadSchema_hyps_satisfiable :
+    ∃ sd s, parseSchemas 0 [(true, Gen.preludeBytes), (false, str "type Query { a: Int }")] = .ok sd ∧ load sd = .ok s := by
+  have h := prelude_and_user_source_load
+  unfold loadsWithPrelude at h
+  split at h
+  · rename_i sd hsd
+    split at h
+    · rename_i s hs; exact ⟨sd, s, hsd, hs⟩
+    · cases h
+  · cases h
+
 end Gql.EndToEnd.Prelude
